@@ -22,6 +22,14 @@ REQUIRED = ['get_components/comembership', 'get_components/labels_1_to_m', 'get_
 CASE_TIMEOUT = {'quick': 30.0, 'thorough': 180.0}
 
 
+
+def _cc_und(rs, n, binary=False, p=.15):
+    A = np.triu((rs.rand(n, n) < p).astype(float), 1)
+    A[np.arange(n - 1), np.arange(1, n)] = 1      # a spanning path keeps it connected
+    W = A if binary else A * (rs.rand(n, n) * .9 + .1)
+    return W + W.T
+
+
 def cases(tier, seed):
     thorough = tier == 'thorough'
     out = []
@@ -77,6 +85,7 @@ def cases(tier, seed):
     for t in range(30 if thorough else 10):
         out.append({'g': ['er', int(rs.randint(3, 12)), .3, True, int(rs.randint(1 << 30))], 'ws': t, 'kind': 'asym'})
     out.append({'kind': 'degenerate', 'g': ['named', 'path', 2], 'directed': False, 'ws': 0, 'schemes': []})
+    out.append({'kind': 'concurrent', 'g': ['named', 'path', 2], 'directed': False, 'ws': seed, 'schemes': [], 'n': 220 if tier == 'thorough' else 120})
     return out
 
 
@@ -133,6 +142,10 @@ def run_batch(case, bct, REC):
 
 
 def run(case, bct, REC):
+    if case.get('kind') == 'concurrent':
+        from .common import concurrent_callers_agree
+        REC.tag(PROP, 'exec')
+        return concurrent_callers_agree(REC, PROP, bct, [('get_components', lambda rs, n: (_cc_und(rs, n, True, .02),)), ('number_of_components', lambda rs, n: (_cc_und(rs, n, True, .02),))], case['n'], case['ws'])
     if case.get('kind') == 'degenerate':
         from .common import degenerate_sizes
         REC.tag(PROP, 'exec')
